@@ -899,7 +899,7 @@ class Interp:
                 except Exception:
                     pass
             return Sym("strformat", a, b)
-        if isinstance(a, (str, bytes)) or isinstance(b, (str, bytes)):
+        if isinstance(a, (str, bytes)) or isinstance(b, (str, bytes)) or _is_strterm(a) or _is_strterm(b):
             return Sym("strop", type(op).__name__, a, b)
         ba, bb = as_bits(a), as_bits(b)
         if ba is not None and bb is not None:
@@ -1165,6 +1165,10 @@ class Interp:
                 return base[kk]
             except IndexError:
                 raise Raised("IndexError", e)
+        if isinstance(base, str) and base in ("0123456789abcdef", "0123456789ABCDEF") and isinstance(kk, Bits):
+            k4 = kk.subst(self.asg)
+            if k4.fits_unsigned(4):
+                return Sym("strformat", "{:x}" if base.islower() else "{:X}", (k4,))
         if isinstance(base, (list, tuple)) and isinstance(kk, Bits):
             kk2 = kk.subst(self.asg)
             srcs = kk2.sources()
@@ -1445,6 +1449,14 @@ class Interp:
             k = _int(args[0])
             if _hashable_const(k):
                 return recv.get(k, args[1] if len(args) > 1 else None)
+        if isinstance(recv, str) and name == "join" and len(args) == 1 and isinstance(args[0], (list, tuple)) and args[0] \
+                and all(isinstance(x, (str, StrV)) for x in args[0]) and any(isinstance(x, StrV) for x in args[0]):
+            chars = []
+            for i, x in enumerate(args[0]):
+                if i:
+                    chars += [ord(c) for c in recv]
+                chars += StrV.of(x).chars
+            return StrV(chars)
         if isinstance(recv, (bytes, bytearray)) and name == "join" and len(args) == 1 and isinstance(args[0], (list, tuple)):
             parts = [_as_bytesv(x) for x in args[0]]
             if all(p is not None for p in parts):
@@ -1602,6 +1614,20 @@ class LambdaV:
 
 
 _OPS = {"Eq": ast.Eq, "NotEq": ast.NotEq, "Lt": ast.Lt, "LtE": ast.LtE, "Gt": ast.Gt, "GtE": ast.GtE}
+
+
+_STR_OPS = ("strformat", "strop", "fstring", "repr", "hex", "str")
+
+
+def _is_strterm(v):
+    if isinstance(v, StrV):
+        return True
+    if isinstance(v, Sym):
+        if v.op in _STR_OPS:
+            return True
+        if v.op == "call" and v.args and isinstance(v.args[0], Sym) and v.args[0].op == "attr" and v.args[0].args[-1] in ("join", "format", "decode", "encode"):
+            return True
+    return False
 
 
 def _is_generator(fnode):
